@@ -73,7 +73,11 @@ let parse_query q =
   if not (starts_with "q=" q) then failwith "bad query" else
     match split_on '/' (Stdlib.String.sub q 2 (Stdlib.String.length q - 2)) with
     | [l; s] ->
-      (Stdlib.List.map n_of_string (Stdlib.List.filter (fun x -> x <> "") (split_on ',' l)), n_of_string s)
+      (* <id>*<n> = the n ids id, id+1, .., id+n-1 *)
+      let expand x = match split_on '*' x with
+        | [a; n] -> Stdlib.List.init (int_of_string n) (fun k -> n_of_int (int_of_string a + k))
+        | _ -> [n_of_string x] in
+      (Stdlib.List.concat_map expand (Stdlib.List.filter (fun x -> x <> "") (split_on ',' l)), n_of_string s)
     | _ -> failwith "bad query"
 
 let row_ids l = Stdlib.List.map (fun r -> r.Store.id) l
@@ -82,7 +86,8 @@ let model_q ms q =
   let (locs, stop) = parse_query q in
   match Locator.locate ms locs stop with
   | Locator.LOk l -> "H:" ^ ids_string (row_ids l) ^ " same"
-  | Locator.LErr -> "E:stoplow same"   (* lerr has the single value EStopLow: extraction erases the argument *)
+  | Locator.LErr Locator.EStopLow -> "E:stoplow same"
+  | Locator.LErr Locator.ELocatorLookup -> "E:locator-lookup same"
 
 (* "r=<q1>+<q2>+.." : the answers are values, a later request cannot change an earlier answer *)
 let retained_parts q = split_on '+' (Stdlib.String.sub q 2 (Stdlib.String.length q - 2))
@@ -108,13 +113,19 @@ let check_answer (h, ms, ss, zw) q obs =
       let got =
         if starts_with "H:" g then Some (Stdlib.String.sub g 2 (Stdlib.String.length g - 2))
         else if g = "E:nolocators" || g = "E:stoplow" then Some ""       (* an error: the peer is sent nothing *)
+        else if g = "E:locator-lookup" then Some "!refused" 
         else None in
       match got with
       | None -> "FAIL unexpected-error " ^ g
       | Some got ->
         let spec_loc l st = if zw then Locator.spec_locate_mc (Locator.tip_chain ms) l st else Locator.spec_locate ss l st in
         let want = ids_string (row_ids (spec_loc locs stop)) in
-        if got = want then "OK"
+        (* beyond the bind-variable limit of SQLite the locator cannot be looked up: refusing (nothing sent) is the
+           admissible answer there - C13_locate_too_long / C13_locate_safe; anything else must be the specified one *)
+        let too_long = Stdlib.List.length locs > int_of_z Locator.sql_max_vars in
+        if got = "!refused" then
+          (if too_long then "OK" else "FAIL unexpected-error " ^ g)
+        else if got = want then "OK"
         else if locs = [] && got = "" then
           "FAIL empty-locator-yields-nothing want " ^ want
         else if stop = h.gid && want = "" && got = ids_string (row_ids (spec_loc locs BinNums.N0)) then
